@@ -421,12 +421,14 @@ class API:
             opts=opts,
         )
 
-        # "metadata", "retry", "timeout", and "request" are reserved words in client methods.
+        # "metadata", "retry", "timeout", and "request" are reserved words in client methods;
+        # "transport" is a property of every client class.
         invalid_module_names = set(keyword.kwlist) | {
             "metadata",
             "retry",
             "timeout",
             "request",
+            "transport",
         }
 
         def disambiguate_keyword_sanitize_fname(
@@ -435,14 +437,20 @@ class API:
             path, fname = os.path.split(full_path)
             name, ext = os.path.splitext(fname)
 
-            # Replace `.` with `_` in the basename as
-            # `.` is not a valid character for modules names.
+            # Replace `.` and `-` with `_` in the basename as
+            # they are not valid characters for modules names.
             # See https://peps.python.org/pep-0008/#package-and-module-names
-            if "." in name:
-                name = name.replace(".", "_")
+            if "." in name or "-" in name:
+                name = name.replace(".", "_").replace("-", "_")
                 full_path = os.path.join(path, name + ext)
 
-            if name in invalid_module_names or full_path in visited_names:
+            # Modules are named in snake case: `Import.proto` would become
+            # the module `import`.
+            if (
+                name in invalid_module_names
+                or to_snake_case(name) in invalid_module_names
+                or full_path in visited_names
+            ):
                 name += "_"
                 full_path = os.path.join(path, name + ext)
                 if full_path in visited_names:
